@@ -28,7 +28,8 @@ CLAIMS = {
              "_Instance.connect/replace/disconnect and _get_connref/_get_portref preserve Inv_conn (conns[i][p] is c "
              "<=> (i,p) in c._connected_ports) and Inv_refs (one PortRef per (instance, port)), their whole-view "
              "postconditions (conns' and every back-reference set exactly as specified, nothing else changes), return "
-             "values, KeyError/TypeError exactly when documented, exceptional postconditions. Bounded (labelled): the "
+             "values, KeyError/TypeError exactly when documented, refusal (RuntimeError) once the owning module is "
+             "elaborated, exceptional postconditions. Bounded (labelled): the "
              "same contract evaluated at run time on real objects after every step of enumerated operation histories "
              "over 8 connectable kinds; and ELABORATED histories: call/setattr/connect/replace/disconnect sequences "
              "with port references taken before and after re-connections, completed to a valid mapping, exported, "
